@@ -4,5 +4,6 @@ CONSTANTS
   K = 8
   MaxEntries = 0
   DevNoneWhenListsEmpty = FALSE
+  DevEmptyAllowIsAbsent = FALSE
 CONSTRAINT Report
 CHECK_DEADLOCK FALSE
